@@ -54,18 +54,18 @@ theorem testRun_res (P : Proj) (svs : List SuiteView) (w : Nat) (path : Path) (s
     a failed check at `.test path`), and `success` iff it contains none.  No "without model error" side
     condition is needed: the equivalence holds in every state the model can reach. -/
 theorem test_result_iff_failing_event (P : Proj) (insts : Insts) (w : Nat) (t : TaskId) (reason : Bool) (kept : List Td)
-    (cut fl : Option Nat) (hk : t.kind = .test)
+    (cut : Option Nat) (hk : t.kind = .test)
     (sv : SuiteView) (hsv : (allSuites P).find? (fun sv => sv.path == t.path.dropLast) = some sv)
     (ts : TestSpec) (hts : sv.spec.tests.find? (fun x => x.name == t.path.getLast?.getD "") = some ts)
     (hen : testDisabledNow P sv ts = false) :
-    let out := runTask P insts w t true reason kept cut fl
+    let out := runTask P insts w t true reason kept cut
     (out.res = .failure ↔ ∃ e, Item.ev e ∈ out.items ∧ failsAt e (.test t.path) = true) ∧
     (out.res = .success ↔ ¬ ∃ e, Item.ev e ∈ out.items ∧ failsAt e (.test t.path) = true) := by
   intro out
   have h := tra_taskProgram_own P (allSuites P) w t true reason kept (.test t.path) (by simp [taskLoc, hk])
-  obtain ⟨_, hj, hf⟩ := runTask_of_tr P insts w t true reason kept cut fl h (jt_init _)
+  obtain ⟨_, hj, hf⟩ := runTask_of_tr P insts w t true reason kept cut h (jt_init _)
   refine res_iff hj.1 hf (.test t.path) ?_
-  show (runTask P insts w t true reason kept cut fl).res = _
+  show (runTask P insts w t true reason kept cut).res = _
   rw [runTask_res]
   unfold finalTS
   rw [taskProgram_test hk hsv hts]
@@ -76,10 +76,10 @@ theorem test_result_iff_failing_event (P : Proj) (insts : Insts) (w : Nat) (t : 
 /-- a skipped test is reported as `skipped`, a disabled one that is "run" as `success` — and the skipped
     event does fail the test's location (that is how `session.is_successful()` learns about it) -/
 theorem skipped_test_result (P : Proj) (insts : Insts) (w : Nat) (t : TaskId) (reason : Bool) (kept : List Td)
-    (cut fl : Option Nat) (hk : t.kind = .test)
+    (cut : Option Nat) (hk : t.kind = .test)
     (sv : SuiteView) (hsv : (allSuites P).find? (fun sv => sv.path == t.path.dropLast) = some sv)
     (ts : TestSpec) (hts : sv.spec.tests.find? (fun x => x.name == t.path.getLast?.getD "") = some ts) :
-    (runTask P insts w t false reason kept cut fl).res = .skipped := by
+    (runTask P insts w t false reason kept cut).res = .skipped := by
   rw [runTask_res, taskProgram_test hk hsv hts]
   simp only [testTask, Bool.not_false, if_true, testSkip]
   split <;> rfl
@@ -96,42 +96,42 @@ theorem phaseProgram_failed (P : Proj) (svs : List SuiteView) (w : Nat) (suite :
   · simp only [exec_bind, isOk, exec_get, exec_pure]
   · simp only [exec_pure, h0]; rfl
 
-theorem ts0_successful (insts : Insts) (cut fl : Option Nat) (loc : Loc) : isSuccessful (ts0 insts cut fl).sess loc = true := rfl
+theorem ts0_successful (insts : Insts) (cut : Option Nat) (loc : Loc) : isSuccessful (ts0 insts cut).sess loc = true := rfl
 
 /-- **Result class ⇔ failure, suite setup**: a suite-initialization task that is run reports `failure` iff
     its output contains an event failing `.suiteSetup path`, `success` iff none. -/
 theorem init_result_iff_failing_event (P : Proj) (insts : Insts) (w : Nat) (t : TaskId) (reason : Bool) (kept : List Td)
-    (cut fl : Option Nat) (hk : t.kind = .init)
+    (cut : Option Nat) (hk : t.kind = .init)
     (sv : SuiteView) (hsv : (allSuites P).find? (fun sv => sv.path == t.path) = some sv) :
-    let out := runTask P insts w t true reason kept cut fl
+    let out := runTask P insts w t true reason kept cut
     (out.res = .failure ↔ ∃ e, Item.ev e ∈ out.items ∧ failsAt e (.suiteSetup t.path) = true) ∧
     (out.res = .success ↔ ¬ ∃ e, Item.ev e ∈ out.items ∧ failsAt e (.suiteSetup t.path) = true) := by
   intro out
   have h := tra_taskProgram_own P (allSuites P) w t true reason kept (.suiteSetup t.path) (by simp [taskLoc, hk])
-  obtain ⟨_, hj, hf⟩ := runTask_of_tr P insts w t true reason kept cut fl h (jt_init _)
+  obtain ⟨_, hj, hf⟩ := runTask_of_tr P insts w t true reason kept cut h (jt_init _)
   refine res_iff hj.1 hf (.suiteSetup t.path) ?_
-  show (runTask P insts w t true reason kept cut fl).res = _
+  show (runTask P insts w t true reason kept cut).res = _
   rw [runTask_res]
   unfold finalTS taskProgram
   simp only [hk, hsv, Bool.not_true, Bool.false_eq_true, if_false, exec_bind, exec_pure]
-  rw [phaseProgram_failed _ _ _ _ _ _ _ _ _ _ (ts0_successful insts cut fl _)]
+  rw [phaseProgram_failed _ _ _ _ _ _ _ _ _ _ (ts0_successful insts cut _)]
   cases isSuccessful _ _ <;> rfl
 
 /-- **Result class ⇔ failure, session setup** -/
 theorem sessSetup_result_iff_failing_event (P : Proj) (insts : Insts) (w : Nat) (t : TaskId) (reason : Bool)
-    (kept : List Td) (cut fl : Option Nat) (hk : t.kind = .sessSetup) :
-    let out := runTask P insts w t true reason kept cut fl
+    (kept : List Td) (cut : Option Nat) (hk : t.kind = .sessSetup) :
+    let out := runTask P insts w t true reason kept cut
     (out.res = .failure ↔ ∃ e, Item.ev e ∈ out.items ∧ failsAt e .sessionSetup = true) ∧
     (out.res = .success ↔ ¬ ∃ e, Item.ev e ∈ out.items ∧ failsAt e .sessionSetup = true) := by
   intro out
   have h := tra_taskProgram_own P (allSuites P) w t true reason kept .sessionSetup (by simp [taskLoc, hk])
-  obtain ⟨_, hj, hf⟩ := runTask_of_tr P insts w t true reason kept cut fl h (jt_init _)
+  obtain ⟨_, hj, hf⟩ := runTask_of_tr P insts w t true reason kept cut h (jt_init _)
   refine res_iff hj.1 hf .sessionSetup ?_
-  show (runTask P insts w t true reason kept cut fl).res = _
+  show (runTask P insts w t true reason kept cut).res = _
   rw [runTask_res]
   unfold finalTS taskProgram
   simp only [hk, Bool.not_true, Bool.false_eq_true, if_false, exec_bind, exec_pure]
-  rw [phaseProgram_failed _ _ _ _ _ _ _ _ _ _ (ts0_successful insts cut fl _)]
+  rw [phaseProgram_failed _ _ _ _ _ _ _ _ _ _ (ts0_successful insts cut _)]
   cases isSuccessful _ _ <;> rfl
 
 /-! ### Teardown tasks, and the session-wide failure flag -/
@@ -142,8 +142,8 @@ theorem sessSetup_result_iff_failing_event (P : Proj) (insts : Insts) (w : Nat) 
     (an error log in a teardown leaves `res = success`); what is true is this, together with
     `task_failed_flag_iff` below (the failure reaches `session.is_successful()` and the report). -/
 theorem teardown_task_result (P : Proj) (insts : Insts) (w : Nat) (t : TaskId) (run reason : Bool) (kept : List Td)
-    (cut fl : Option Nat) (hk : t.kind = .teardown ∨ t.kind = .sessTeardown) :
-    (runTask P insts w t run reason kept cut fl).res = if run then .success else .skipped := by
+    (cut : Option Nat) (hk : t.kind = .teardown ∨ t.kind = .sessTeardown) :
+    (runTask P insts w t run reason kept cut).res = if run then .success else .skipped := by
   rw [runTask_res]
   unfold taskProgram
   rcases hk with hk | hk <;> simp only [hk, exec_bind, exec_pure]
@@ -152,25 +152,25 @@ theorem teardown_task_result (P : Proj) (insts : Insts) (w : Nat) (t : TaskId) (
     `--stop-on-failure` and the exit code (`eff.failed`) is set iff some event in the task's output fails
     some location — for every located task kind, run or skipped. -/
 theorem task_failed_flag_iff (P : Proj) (insts : Insts) (w : Nat) (t : TaskId) (run reason : Bool) (kept : List Td)
-    (cut fl : Option Nat) (L : Loc) (hL : taskLoc t = some L) :
-    (runTask P insts w t run reason kept cut fl).eff.failed = true ↔
-      ∃ e loc, Item.ev e ∈ (runTask P insts w t run reason kept cut fl).items ∧ failsAt e loc = true := by
+    (cut : Option Nat) (L : Loc) (hL : taskLoc t = some L) :
+    (runTask P insts w t run reason kept cut).eff.failed = true ↔
+      ∃ e loc, Item.ev e ∈ (runTask P insts w t run reason kept cut).items ∧ failsAt e loc = true := by
   have h := tra_taskProgram_own P (allSuites P) w t run reason kept L hL
-  obtain ⟨_, hj, hf⟩ := runTask_of_tr P insts w t run reason kept cut fl h (jt_init _)
-  show (!(finalTS P insts w t run reason kept cut fl).sess.failures.isEmpty) = true ↔ _
+  obtain ⟨_, hj, hf⟩ := runTask_of_tr P insts w t run reason kept cut h (jt_init _)
+  show (!(finalTS P insts w t run reason kept cut).sess.failures.isEmpty) = true ↔ _
   constructor
   · intro hne
-    cases hfl : (finalTS P insts w t run reason kept cut fl).sess.failures with
+    cases hfl : (finalTS P insts w t run reason kept cut).sess.failures with
     | nil => rw [hfl] at hne; cases hne
     | cons l rest =>
-      have hm : l ∈ (finalTS P insts w t run reason kept cut fl).sess.failures := by rw [hfl]; simp
+      have hm : l ∈ (finalTS P insts w t run reason kept cut).sess.failures := by rw [hfl]; simp
       obtain ⟨e, he, hfa⟩ := (hj.1.sync l).mp hm
       rw [hf] at he
       exact ⟨e, l, (mem_filterMap_evOf _ _).mp he, hfa⟩
   · rintro ⟨e, loc, he, hfa⟩
-    have hm : loc ∈ (finalTS P insts w t run reason kept cut fl).sess.failures :=
+    have hm : loc ∈ (finalTS P insts w t run reason kept cut).sess.failures :=
       (hj.1.sync loc).mpr ⟨e, by rw [hf]; exact (mem_filterMap_evOf _ _).mpr he, hfa⟩
-    cases hfl : (finalTS P insts w t run reason kept cut fl).sess.failures with
+    cases hfl : (finalTS P insts w t run reason kept cut).sess.failures with
     | nil => rw [hfl] at hm; cases hm
     | cons l rest => rfl
 
@@ -231,15 +231,15 @@ theorem handleException_flushes_only_starts (ts : TS) (c : Cursor) (hinv : Inv t
 
 open Sample in
 example :
-    let out := runTask PA Insts.empty 0 ⟨.test, ["s", "t"]⟩ true false [] none none
+    let out := runTask PA Insts.empty 0 ⟨.test, ["s", "t"]⟩ true false [] none
     (out.res = .failure ↔ ∃ e, Item.ev e ∈ out.items ∧ failsAt e (.test ["s", "t"]) = true) :=
-  (test_result_iff_failing_event PA Insts.empty 0 ⟨.test, ["s", "t"]⟩ false [] none none rfl svA hsvA tA htA rfl).1
+  (test_result_iff_failing_event PA Insts.empty 0 ⟨.test, ["s", "t"]⟩ false [] none rfl svA hsvA tA htA rfl).1
 
 open Sample in
 example :
-    let out := runTask PA Insts.empty 0 ⟨.init, ["s"]⟩ true false [] none none
+    let out := runTask PA Insts.empty 0 ⟨.init, ["s"]⟩ true false [] none
     (out.res = .success ↔ ¬ ∃ e, Item.ev e ∈ out.items ∧ failsAt e (.suiteSetup ["s"]) = true) :=
-  (init_result_iff_failing_event PA Insts.empty 0 ⟨.init, ["s"]⟩ false [] none none rfl svA hsvS).2
+  (init_result_iff_failing_event PA Insts.empty 0 ⟨.init, ["s"]⟩ false [] none rfl svA hsvS).2
 
 /-- a failing event does fail its location (the right-hand sides above are satisfiable) -/
 example : failsAt (.check (.test ["s", "t"]) (some "x") 0 "" false none 5) (.test ["s", "t"]) = true := by decide
@@ -247,7 +247,7 @@ example : failsAt (.check (.test ["s", "t"]) (some "x") 0 "" false none 5) (.tes
 /-- `handleException_spec` on a worker whose cursor holds a pending step start: step start flushed, then the error log -/
 example :
     let c : Cursor := { loc := .test ["s", "t"], step := some "x", pending := [.stepStart (.test ["s", "t"]) "x" 0 2] }
-    let ts : TS := { ts0 Insts.empty none none with sess := setCursor St.init 0 c }
+    let ts : TS := { ts0 Insts.empty none with sess := setCursor St.init 0 c }
     (exec (handleException .abortSuite (some ["s"]) true) ts).2.out.toList =
         [.ev (.stepStart (.test ["s", "t"]) "x" 0 2), .ev (.log (.test ["s", "t"]) (some "x") 0 .error "" 1)] ∧
      (exec (handleException .abortSuite (some ["s"]) true) ts).2.abortedSuites = [some ["s"]] := by
